@@ -229,6 +229,17 @@ func (r *NgReader) readOption() error {
 			}
 		}
 		r.currentBlock.length -= uint32(length)
+	} else {
+		// don't leave the value of the previous option in place
+		r.currentOption.value = r.currentOption.value[:0]
+	}
+	return nil
+}
+
+// checkOptionLength returns an error if the value of the current option is shorter than the given minimum length.
+func (r *NgReader) checkOptionLength(need int) error {
+	if len(r.currentOption.value) < need {
+		return fmt.Errorf("Option %d in block type %d is too short: got %d bytes, need at least %d", r.currentOption.code, r.currentBlock.typ, len(r.currentOption.value), need)
 	}
 	return nil
 }
@@ -397,13 +408,22 @@ OPTIONS:
 		case ngOptionCodeInterfaceDescription:
 			intf.Description = string(r.currentOption.value)
 		case ngOptionCodeInterfaceFilter:
+			if err := r.checkOptionLength(1); err != nil {
+				return err
+			}
 			// ignore filter type (first byte) since it is not specified
 			intf.Filter = string(r.currentOption.value[1:])
 		case ngOptionCodeInterfaceOS:
 			intf.OS = string(r.currentOption.value)
 		case ngOptionCodeInterfaceTimestampOffset:
+			if err := r.checkOptionLength(8); err != nil {
+				return err
+			}
 			intf.TimestampOffset = r.getUint64(r.currentOption.value[:8])
 		case ngOptionCodeInterfaceTimestampResolution:
+			if err := r.checkOptionLength(1); err != nil {
+				return err
+			}
 			intf.TimestampResolution = NgResolution(r.currentOption.value[0])
 		}
 	}
@@ -476,14 +496,26 @@ OPTIONS:
 		case ngOptionCodeComment:
 			stats.Comment = string(r.currentOption.value)
 		case ngOptionCodeInterfaceStatisticsStartTime:
+			if err := r.checkOptionLength(8); err != nil {
+				return err
+			}
 			ts = uint64(r.getUint32(r.currentOption.value[:4]))<<32 | uint64(r.getUint32(r.currentOption.value[4:8]))
 			stats.StartTime = time.Unix(r.convertTime(ifaceID, ts)).UTC()
 		case ngOptionCodeInterfaceStatisticsEndTime:
+			if err := r.checkOptionLength(8); err != nil {
+				return err
+			}
 			ts = uint64(r.getUint32(r.currentOption.value[:4]))<<32 | uint64(r.getUint32(r.currentOption.value[4:8]))
 			stats.EndTime = time.Unix(r.convertTime(ifaceID, ts)).UTC()
 		case ngOptionCodeInterfaceStatisticsInterfaceReceived:
+			if err := r.checkOptionLength(8); err != nil {
+				return err
+			}
 			stats.PacketsReceived = r.getUint64(r.currentOption.value[:8])
 		case ngOptionCodeInterfaceStatisticsInterfaceDropped:
+			if err := r.checkOptionLength(8); err != nil {
+				return err
+			}
 			stats.PacketsDropped = r.getUint64(r.currentOption.value[:8])
 		}
 	}
@@ -601,10 +633,16 @@ OPTIONS:
 		case ngOptionCodeComment:
 			opts.Comments = append(opts.Comments, string(r.currentOption.value))
 		case ngOptionCodeEpbFlags:
+			if err := r.checkOptionLength(4); err != nil {
+				return opts, err
+			}
 			flags := NgEpbFlags{}
 			flags.FromUint32(binary.LittleEndian.Uint32(r.currentOption.value))
 			opts.Flags = &flags
 		case ngOptionCodeEpbHash:
+			if err := r.checkOptionLength(1); err != nil {
+				return opts, err
+			}
 			v := make([]byte, len(r.currentOption.value)-1)
 			copy(v, r.currentOption.value[1:])
 			opts.Hashes = append(opts.Hashes, NgEpbHash{
@@ -612,15 +650,27 @@ OPTIONS:
 				Hash:      v,
 			})
 		case ngOptionCodeEpbDropCount:
+			if err := r.checkOptionLength(8); err != nil {
+				return opts, err
+			}
 			v := binary.LittleEndian.Uint64(r.currentOption.value)
 			opts.DropCount = &v
 		case ngOptionCodeEpbPacketID:
+			if err := r.checkOptionLength(8); err != nil {
+				return opts, err
+			}
 			v := binary.LittleEndian.Uint64(r.currentOption.value)
 			opts.PacketID = &v
 		case ngOptionCodeEpbQueue:
+			if err := r.checkOptionLength(4); err != nil {
+				return opts, err
+			}
 			v := binary.LittleEndian.Uint32(r.currentOption.value)
 			opts.Queue = &v
 		case ngOptionCodeEpbVerdict:
+			if err := r.checkOptionLength(1); err != nil {
+				return opts, err
+			}
 			v := make([]byte, len(r.currentOption.value)-1)
 			copy(v, r.currentOption.value[1:])
 			opts.Verdicts = append(opts.Verdicts, NgEpbVerdict{
